@@ -402,7 +402,12 @@ func init() {
 			}
 			bsz := []int{1, 2, 3, 32}[r.Intn(4)]
 			// every statement alone first (sequentially, each on its own copy of the initial store, in the mode it will run in)
-			modes := []string{"row", "batch"}
+			// the iteration mode of every statement is drawn independently (a themed round then has the kind in both modes, and
+			// often twice in the same one)
+			modes := make([]string, len(texts))
+			for p := range modes {
+				modes[p] = []string{"row", "batch", "batch"}[r.Intn(3)]
+			}
 			alone := make([]concResult, len(texts))
 			for p := range texts {
 				o, _ := RunOn(texts[p], kvOf(sp), RunOpts{Mode: modes[p%len(modes)], BSize: bsz, Cache: true, NoLog: true})
